@@ -181,6 +181,56 @@ def case(s, idx, kind):
                                {'kind': kind, 'via': 'two running orders'}, wit2, msg_kind=kind, status='b')
 
 
+def any_kind_reuse(s, idx):
+    """All 24 kinds, including messages whose IDs are spread over several
+    element_source blocks: str(m) unchanged by reading its accessors, by
+    inspect() and by merging; merging the same object twice == two fresh copies."""
+    import contextlib
+    import io
+    rng = s.rng('any', idx)
+    pool = gen.text_pool('plain')
+    ids = gen.Ids('Z%d.' % idx)
+    kind = B.ALL_KINDS[idx % len(B.ALL_KINDS)]
+    ro_txt = gen.rand_ro(rng, n_stories=rng.randint(3, 6), pool=pool)
+    msg_txt = gen.rand_message(rng, Abs(ro_txt), kind, 50, ids, pool=pool, shape_weights=(0.9, 0.05, 0.05, 0), selfref=0)
+    try:
+        m = s.load(msg_txt)
+    except Exception:
+        return
+    wit = {'type': 'c13', 'ro_txt': ro_txt, 'msg_txt': msg_txt, 'kind': kind, 'edits': []}
+    t0 = str(m)
+    for name in ('story', 'stories', 'item', 'items', 'source_story', 'target_story', 'source_stories'):
+        try:
+            v = getattr(m, name, None)
+            if isinstance(v, (list, tuple)):
+                [getattr(x, 'id', None) for x in v]
+        except Exception:
+            pass
+    try:
+        with contextlib.redirect_stdout(io.StringIO()):
+            m.inspect()
+    except Exception:
+        pass
+    s.evaluations += 1
+    ok_read = str(m) == t0
+    if not ok_read:
+        s.custom_violation('message-modified-by-reading-it', {'kind': kind}, wit, msg_kind=kind, status='read')
+    ro_a = s.load(ro_txt)
+    ro_b = s.load(ro_txt)
+    ro_a, ea, _ = s.add(ro_a, m)
+    ro_b, eb, _ = s.add(ro_b, m)
+    ro_c = s.load(ro_txt)
+    ro_c, ec, _ = s.add(ro_c, s.load(msg_txt))
+    s.drain_and_judge(None, {'any-kind-reuse': idx})
+    same = str(ro_a) == str(ro_b) == str(ro_c) and type(ea) is type(eb) is type(ec)
+    s.note_sig((kind, 'any', 'split' if msg_txt.count('<element_source') > 1 else 'plain', ok_read, same))
+    if str(m) != t0:
+        s.custom_violation('message-modified-by-merge', {'kind': kind}, wit, msg_kind=kind, status='a')
+    if not same:
+        s.custom_violation('re-merge-of-same-object-differs-from-fresh-copy',
+                           {'kind': kind, 'excs': [type(x).__name__ for x in (ea, eb, ec)]}, wit, msg_kind=kind, status='c')
+
+
 def via_collection(s, idx):
     """MosCollection re-reads every message, so it must never exhibit sharing:
     merging the same collection twice (fresh) gives identical text."""
@@ -214,6 +264,9 @@ def run(s):
     for c in range(60 if q else 2500):
         if s.mine(c):
             via_collection(s, c)
+    for c in range(480 if q else 20000):
+        if s.mine(c):
+            any_kind_reuse(s, c)
 
 
 def replay(s, data):
